@@ -271,6 +271,39 @@ def meta_case(case, res):
         except Exception as e:
             res.violation("metadata|wrong exception", f"{cls}({key}=3 m) under spectral equivalencies: {type(e).__name__}: {e}", case,
                           {"key": key, "ambient": "spectral"})
+    # augmented assignments and in-place updates of a value READ from the object: a refused update leaves the object as it was,
+    # an accepted one goes through the same validation as an assignment, and no attribute shares its storage with another
+    x = valid_array(cls, 2)
+    for key in [k for k in ("sample_rate", "chan_bw", "center_freq") if k in mm or (k == "chan_bw" and cls != "Signal")]:
+        for what, fn, must_refuse in (("*= -1", lambda o: setattr(o, key, getattr(o, key).__imul__(-1)), key != "center_freq"),
+                                      ("*= s (unit)", lambda o: setattr(o, key, getattr(o, key) * u.s), True),
+                                      ("value read, then multiplied in place", lambda o: getattr(o, key).__imul__(2), None),
+                                      ("*= 2", lambda o: setattr(o, key, getattr(o, key).__imul__(2)), False)):
+            s0 = C(x, **base_kwargs(cls))
+            if cls in ("BasebandSignal", "DualPolarizationSignal"):
+                s0.sample_rate = s0.sample_rate * 1          # (an earlier assignment must not couple the two attributes' storage)
+            before = {k: repr(getattr(s0, k)) for k in ("sample_rate", "chan_bw", "center_freq") if hasattr(s0, k)}
+            res.transitions += 1
+            res.state((cls, "augmented", key, what))
+            try:
+                fn(s0)
+                raised = None
+            except Exception as e:
+                raised = e
+            after = {k: repr(getattr(s0, k)) for k in before}
+            br = invariants.check(s0)
+            sub = {"attr": key, "update": what}
+            if br:
+                res.violation(f"assign|contract|{br[0][0]}", f"after {cls}.{key} {what}{' (which raised)' if raised else ''}: {br}", case, sub)
+            elif must_refuse is None and after != before:
+                res.violation("assign|value read from the object is the object's own storage", f"{cls}: x = z.{key}; x *= 2 changed the "
+                              f"signal: {before} -> {after}", case, sub)
+            elif raised is not None and after != before:
+                res.violation("assign|attribute changed by a rejected assignment", f"{cls}.{key} {what}: {before} -> {after}", case, sub)
+            elif must_refuse and raised is None:
+                res.violation("assign|invalid accepted", f"{cls}.{key} {what} was accepted: {after}", case, sub)
+            else:
+                res.hits["augmented assignments"] += 1
     res.sample({"cls": cls, "menus": {k: len(v) for k, v in mm.items()}}, 1)
 
 
@@ -556,7 +589,7 @@ def main(argv=None):
         required_hits=["refused under python -O", "safe cast applied", "byte-swapped input", "zero-length but valid", "invalid rejected with ValueError",
                        "zero-length AND empty sample shape rejected", "odd nchan with explicit alignment",
                        "invalid metadata rejected", "invalid assignment rejected", "operation outputs monitored",
-                       "baseband stepped slice chain", "copies", "assignment then copy", "like with overrides", "like missing required -> ValueError", "length refused as a frequency under ambient equivalencies"],
+                       "baseband stepped slice chain", "copies", "assignment then copy", "like with overrides", "like missing required -> ValueError", "length refused as a frequency under ambient equivalencies", "augmented assignments"],
         assumptions=["'safe' is NumPy's can_cast(..., 'safe') table", "constructor inputs are NumPy or Dask arrays (the statement's domain)",
                      "baseband chan_bw == sample_rate is demanded at creation, not after a later sample_rate assignment"],
         argv=argv, chunksize=1)
